@@ -16,7 +16,13 @@ independent reference evaluator (oracle O4, vtlmc/ref_c06.py: explicit frame com
               is supplied in two physical row orders (sorted, reversed) and both results must equal the expected
               set of datapoints.
 Shapes that packing cannot express (no partition clause at all, empty operand, one-datapoint operand) are
-enumerated unpacked.
+enumerated unpacked.  One run of the engine executes a batch of ~11 calls x 2 forms x 2 row orders as one script
+(the fixed cost of a run dominates); when a batch raises, its calls are re-executed one by one.
+
+One additional class is outside the crisp core and judged by a weaker oracle: aggregate functions with order by
+*and* window omitted (``sum(DS_1 over (partition by Id_1))``).  There the result must only (i) equal one of the
+two readings {whole partition, default window over the datapoints ordered by the remaining identifiers} and
+(ii) not depend on the physical row order of the operand.
 
 Before anything is judged the evaluator must reproduce the expected outputs stored in the repository
 (Reference-Manual examples RM139, RM151-RM156 and tests/Analytic): the calibration gate.
@@ -532,8 +538,9 @@ class Check:
         "count of 0 may be reported as 0 or null; stddev_samp / var_samp of one value -> null; stddev_pop / var_pop of one value -> 0",
         "median of an even number of values = mean of the two middle values (as in tests/Analytic 1-1-1-11)",
         "no window clause + order by = data points between unbounded preceding and current data point (tests/Analytic 1-1-1-1, "
-        "GH_750_8); analytic calls without order by (other than ratio_to_report) are not in the alphabet: the default order / "
-        "window of that shape is not crisp",
+        "GH_750_8); without order by and without window the reading is not crisp: aggregate functions of that shape are only "
+        "required to equal one of {whole partition, default window over the datapoints ordered by the remaining identifiers} and "
+        "to be independent of the physical row order; first_value / last_value / lag / lead / rank without order by are not in the alphabet",
         "no partition clause is only exercised when every identifier of the operand is an ordering component (RM139): whether "
         "the remaining identifiers partition the operand is not crisp",
         "range frames: distance on the single Integer ordering identifier measured along the ordering direction ('n preceding' "
